@@ -97,6 +97,11 @@ func NewPositionRange(lines []string, val *yaml.Node, minColumn int) (offsets Po
 	need := val.Value[needIndex]
 	lineIndex := val.Line
 	columnIndex := val.Column
+	if val.Style&(yaml.LiteralStyle|yaml.FoldedStyle) != 0 {
+		// Block scalar content starts on the line after the header (indicators and comment).
+		lineIndex++
+		columnIndex = minColumn
+	}
 
 	for lineIndex <= len(lines) {
 		// Append new line but only if we already have any tokens.
